@@ -72,6 +72,7 @@ type Case struct {
 	Mount    bool          `json:"mount"`    // the destination also implements registry.Mounter; MountFrom returns candidates
 	CbSet    string        `json:"cbset"`    // which of PreCopy PostCopy OnCopySkipped OnMounted MountFrom are set, 5 x 0|1 ("" = all set)
 	FindSucc bool          `json:"findsucc"` // FindSuccessors set (to a function calling content.Successors) instead of nil
+	Slow     bool          `json:"slow"`     // storage latencies of 0.2-2 ms (contention on the limiter)
 	Fast     bool          `json:"fast"`     // latencies are yields only (no sleeps): the small-scope enumeration
 	Sched    bool          `json:"sched"`    // run under testing/synctest with a PRNG-controlled scheduler
 	Thorough bool          `json:"thorough"` // generated with the thorough-tier size distribution
@@ -101,6 +102,7 @@ type rec struct {
 	lat    *common.Rand
 	bytes  [][]byte // generator's bytes per node (what a successful mount makes available)
 	fast   bool
+	slow   bool
 	sched  *sched   // controlled schedules: every delay point parks until the scheduler releases it
 }
 
@@ -139,6 +141,10 @@ func (r *rec) delay() {
 	r.lmu.Unlock()
 	if r.fast && v >= 8 {
 		v = 4
+	}
+	if r.slow && v >= 6 {
+		time.Sleep(time.Duration(200+28*a) * time.Microsecond)
+		return
 	}
 	switch {
 	case v < 4:
@@ -620,7 +626,7 @@ func Execute(c *Case) *Result {
 			return nil
 		}
 	}
-	r := &rec{idx: map[dkeyT]int{}, lat: common.NewRand(c.Seed), fast: c.Fast}
+	r := &rec{idx: map[dkeyT]int{}, lat: common.NewRand(c.Seed), fast: c.Fast, slow: c.Slow}
 	for _, n := range g.Nodes {
 		if _, dup := r.idx[keyOf(n.Desc)]; dup {
 			res.SetupErr = fmt.Errorf("generator produced two nodes with the same descriptor (node %d)", n.ID)
